@@ -258,6 +258,13 @@ def check_ops(tr, curve, ops):
     return out
 
 
+# Curve sections whose arrays have every dtype lasio accepts (int32, int64, bool, datetime64, object, text, empty) and
+# in particular a non-floating FIRST curve: get() computes np.asarray(first.data) * nan.  Judged by the direct oracle
+# only (Items.nan_like models the floating case).  ON since lasio 0713d69 (before it get(k, default) raised TypeError
+# when the first curve held text / datetime64 / object data).
+TYPED_FIRST_CURVE = True
+
+
 # ---- generation -------------------------------------------------------------------------------------
 ALPHABETS = {"full": ic.full_alphabet, "mid": ic.mid_alphabet, "intlike": ic.intlike_alphabet}
 SAMPLE_EVERY = 97
@@ -357,7 +364,21 @@ def run(ctx):
         cases.append((inp, dig))
         hist["random<=30"] = hist.get("random<=30", 0) + 1
         res.oracle_violations += viol
-    res.cases = len(cases)
+    n_typed = 0
+    if TYPED_FIRST_CURVE:
+        for j in range(2000 if ctx.thorough else 200):
+            tr = ctx.rng.random() < 0.5
+            ops = ic.instantiate(ic.random_sequence(ctx.rng, 8, tr, True), True, all_dtypes=True, start=ctx.rng.randrange(12))
+            n_typed += 1
+            hist["random<=8 every dtype (oracle only)"] = hist.get("random<=8 every dtype (oracle only)", 0) + 1
+            sim = ic.Sim(tr, True)
+            for o in ops:
+                sim.apply(o)
+            sig = signature(sim.s, True) + (tuple(ic.render_data(i.data).split(":")[0] for i in list.__iter__(sim.s)),)
+            if sig not in seen:
+                seen.add(sig)
+                res.oracle_violations += check_ops(tr, True, ops)[:3]
+    res.cases = len(cases) + n_typed
     res.oracle_violations.sort(key=lambda v: len(v["payload"]["ops"]))      # shortest history first
     if ctx.build.model_ok:
         mism, err = lib.run_coq_cases("c15", [], ic.RUN_DIGEST, cases, shard=1000)
